@@ -12,7 +12,7 @@ LEVEL = 'exploration'
 BUDGET = {'quick': 1200, 'thorough': 5000}
 RULE = ('Hypothesis-generated histories over one root ResourceMap: set(path, value) with plain or /-composed keys '
         'of depth 1-4 over 8 path components (incl. empty string, blank, dotted, non-ASCII), values = fresh '
-        'handle / empty map / pre-populated map / layered map; clear(map); push_layer(map) (handles.maps.insert(0, '
+        'handle (half of them falsy objects) / empty map / pre-populated map / layered map; clear(map); push_layer(map) (handles.maps.insert(0, '
         '{}) as the directory populator does). Oracle: nested reference model (latest assignment wins, composite '
         'keys turn intermediate names into maps); after EVERY step, for every model path and for absent paths '
         '(extensions, paths through handles, siblings): m[path], chained m[a][b][c] and m.get(path)() denote the '
@@ -39,8 +39,13 @@ class H(desper.Handle):
         self.tag = H.n
         self.res = ('resource', H.n)
 
+    falsy = False
+
     def load(self):
         return self.res
+
+    def __bool__(self):
+        return not self.falsy       # a falsy handle (think: a handle over an empty batch) is a handle all the same
 
     def __repr__(self):
         return 'H%d' % self.tag
@@ -122,6 +127,7 @@ class Run:
         """returns (real object, model node) - model node is an MMap or the handle itself"""
         if kind in (0, 1):
             h = H()
+            h.falsy = kind == 1
             return h, h
         if kind == 2:
             m = desper.ResourceMap()
